@@ -67,7 +67,11 @@ def scalar_cases():
         out.append((datetime.time, datetime.time(23, 59, 59, 999999, tzinfo=tz)))
     out += [(TD, v) for v in (TD(0), TD(days=7), TD(days=8), TD(days=14, seconds=59, microseconds=999999), TD(seconds=59, microseconds=999999),
                               TD(seconds=-1), TD(days=-14, seconds=86340, microseconds=999999), TD(microseconds=7), TD(microseconds=50),
-                              TD(days=300000, microseconds=1), TD.max, TD.min, TD(hours=1), TD(days=6, hours=23, minutes=59, microseconds=7))]
+                              TD(days=300000, microseconds=1), TD.max, TD.min, TD(hours=1), TD(days=6, hours=23, minutes=59, microseconds=7),
+                              # long spans of either sign with a sub-second part (beyond 2**53 microseconds)
+                              TD(days=100000, seconds=86399, microseconds=999999), -TD(days=100000, seconds=86399, microseconds=999999),
+                              -TD(days=200000, seconds=86399, microseconds=1), -TD(days=999999998, seconds=86399, microseconds=999999),
+                              -TD(days=99999999, seconds=3, microseconds=7))]
     return out
 
 
